@@ -3,6 +3,7 @@ CONSTANTS
   Kinds = {"A", "B"}
   MaxNest = 3
   MaxSteps = 7
+  ObjAfterMsg = TRUE
   ClearActive = TRUE
   Emit = TRUE
 VIEW view
